@@ -345,8 +345,54 @@ def check_history(hist, ck, tag, pool_size, rng, tier, limit=None, stop_early=Fa
         ci, off = cut[4]
         lines.append('cut %d %d' % (ci, off))
         cutchecks[len(lines) - 1] = (cut, obs)
-    res['model'] = (lines, checks, cutchecks)
+    # [I] fidelity of the read_index model on files NO crash of the property's model produces:
+    # truncations anywhere and single-byte damage in headers of the uncrashed file
+    rawchecks = {}
+    if not big:
+        final = ctx.rr.final
+        probes = [(n, None) for n in sorted({0, 1, 3, 4, 5, 26, 27, len(final) - 1, len(final) // 2,
+                                              rng.randrange(len(final) + 1), rng.randrange(len(final) + 1)})
+                  if 0 <= n <= len(final)]
+        for t in ctx.txs[:3]:
+            probes += [(len(final), (t['pos'] + 16, rng.choice([99, 117, 120, 200]))),
+                       (len(final), (t['pos'] + 15, (final[t['pos'] + 15] + 1) % 256)),
+                       (len(final), (t['end'] - 1, (final[t['end'] - 1] + 1) % 256)),
+                       (len(final), (t['pos'] + 18, 1))]
+            for r in t['recs'][:1]:
+                probes += [(len(final), (r['pos'] + 31, (final[r['pos'] + 31] + 1) % 256)),
+                           (len(final), (r['pos'] + 33, 1)), (len(final), (r['pos'] + 41, final[r['pos'] + 41] ^ 1))]
+        for n, patch in probes:
+            b = bytearray(final[:n])
+            if patch and patch[0] < len(b):
+                b[patch[0]] = patch[1]
+            lines.append('rawcut %d' % n + (' %d %d' % patch if patch else ''))
+            rawchecks[len(lines) - 1] = raw_observe(ctx, bytes(b))
+    res['model'] = (lines, checks, cutchecks, rawchecks)
     return res
+
+
+ERRKIND = {'CorruptedTransactionError': 'err:CorruptedTransaction', 'CorruptedDataError': 'err:CorruptedData',
+           'FileStorageFormatError': 'err:Format', 'ValueError': 'err:Value', 'error': 'err:Struct',
+           'UnicodeDecodeError': 'err:Unicode'}
+
+
+def raw_observe(ctx, data):
+    """what the real writable open makes of arbitrary bytes: error kind, or pos/ltid/file after"""
+    from ZODB.FileStorage import FileStorage
+    global CTX
+    CTX = ctx
+    wd = _workdir()
+    L.write_dir(wd, {'Data.fs': data})
+    try:
+        fs = FileStorage(os.path.join(wd, 'Data.fs'))
+    except Exception as e:
+        return ERRKIND.get(type(e).__name__, 'err:Other(%s)' % type(e).__name__)
+    try:
+        pos, ltid = fs._pos, L.u64(fs.lastTransaction())
+    finally:
+        fs.close()
+    after = L.read_dir(wd).get('Data.fs', b'')
+    return 'pos=%d ltid=%016x|len=%d fnv=%s' % (pos, ltid, len(after), L.fnv64(after))
 
 
 def case_of(hist, cut=None):
@@ -415,13 +461,13 @@ def main(argv=None):
         if res.get('model_error'):
             ck.mismatch(res['model_error'], case_of(hist))
         if res['model'] and not res['violations']:
-            lines, checks, cutchecks = res['model']
-            expectations.append((name, hist, len(all_lines), checks, cutchecks))
+            lines, checks, cutchecks, rawchecks = res['model']
+            expectations.append((name, hist, len(all_lines), checks, cutchecks, rawchecks))
             all_lines += lines
     # ---- model: one driver run for everything
     if all_lines:
         out = run_driver('Disk', all_lines, timeout=1500)
-        for name, hist, base, checks, cutchecks in expectations:
+        for name, hist, base, checks, cutchecks, rawchecks in expectations:
             bad = None
             for k, want in sorted(checks.items()):
                 if out[base + k] != want:
@@ -439,6 +485,21 @@ def main(argv=None):
                             cut[:2], all_lines[base + k], want, tail, got[:300])
                         break
                     ck.count('model_cuts_compared')
+            if bad is None:
+                for k, want in sorted(rawchecks.items()):
+                    got = out[base + k]
+                    rec_part = got.split(' rec ', 1)[1] if ' rec ' in got else got
+                    if want.startswith('err:'):
+                        ok = rec_part == want
+                    else:
+                        a, b_ = want.split('|')
+                        import re as _re
+                        ok = _re.sub(r'^n=\d+ ', '', rec_part).startswith(a + ' how=') and rec_part.endswith(' ' + b_)
+                    if not ok:
+                        bad = 'read_index on a damaged file differs (%r): impl %s | model %s' % (
+                            all_lines[base + k], want, rec_part[:200])
+                        break
+                    ck.count('model_damaged_files_compared')
             if bad:
                 ck.mismatch('history %s: %s' % (name, bad), case_of(hist))
     ck.finish(rule='a case = (history, cut); histories of 1-8 two-phase commits (stores of new/existing oids, '
